@@ -335,3 +335,97 @@ Proof.
   - discriminate.
   - split; [exact R3|]. intros n H. apply R2, R1, H.
 Qed.
+
+(* ------------------------------------------------------------ the fuel given to Tarjan and to the layering suffices *)
+Lemma visit_dom_mono g f : forall m st1 st2, visit f g m st1 = Ok st2 -> incl (dom st1) (dom st2).
+Proof.
+  induction f as [|f IHf]; intros m st1 st2; [discriminate|].
+  cbn [visit]. destruct (low_get (low st1) m) eqn:Lm.
+  - intros Q. inversion Q. subst. apply incl_refl.
+  - destruct (succs_of g m) as [ss|]; [|discriminate].
+    set (st0 := mkT _ _ _).
+    assert (G2 : forall ss sta stb, visit_succs (visit f g) m ss sta = Ok stb -> incl (dom sta) (dom stb)).
+    { induction ss0 as [|s ss0 IHs]; intros sta stb; simpl.
+      - intros Q. inversion Q. subst. apply incl_refl.
+      - destruct (visit f g s sta) as [stc|] eqn:Ec; [|discriminate].
+        destruct (low_get (low stc) m) as [a|] eqn:La; [|discriminate].
+        destruct (low_get (low stc) s) as [b|]; [|discriminate].
+        intros Q. apply IHs in Q. intros x Hx. apply Q. unfold dom. cbn [low].
+        rewrite low_set_dom_in by (eapply low_get_Some_In; eauto).
+        apply (IHf s sta stc Ec), Hx. }
+    destruct (visit_succs (visit f g) m ss st0) as [std|] eqn:Ed; [|discriminate].
+    apply G2 in Ed. destruct (low_get (low std) m) as [l|] eqn:Ll; [|discriminate].
+    assert (D0 : incl (dom st1) (dom st0)).
+    { unfold st0, dom. cbn [low]. apply low_get_None in Lm. rewrite low_set_dom_new by exact Lm.
+      intros x Hx. apply in_or_app. auto. }
+    destruct (Nat.eqb (length (low st1)) l).
+    + intros Q. inversion Q. subst. intros x Hx. apply D0, Ed in Hx. unfold dom. cbn [low].
+      apply fold_low_set_dom. exact Hx.
+    + intros Q. inversion Q. subst. intros x Hx. apply Ed, D0, Hx.
+Qed.
+
+Definition unnumbered (g : graph) (st : tstate) : nat :=
+  length (filter (fun k => negb (mem_node k (dom st))) (gkeys g)).
+
+Lemma unnumbered_mono g st st' : incl (dom st) (dom st') -> unnumbered g st' <= unnumbered g st.
+Proof.
+  intros H. unfold unnumbered. induction (gkeys g) as [|k l IH]; simpl; [lia|].
+  destruct (mem_node k (dom st')) eqn:A; destruct (mem_node k (dom st)) eqn:B; simpl; try lia.
+  apply mem_node_In in B. apply H in B. apply mem_node_not_In in A. contradiction.
+Qed.
+
+Lemma unnumbered_add g st st' n :
+  In n (gkeys g) -> ~ In n (dom st) -> incl (n :: dom st) (dom st') -> unnumbered g st' < unnumbered g st.
+Proof.
+  intros K N H. unfold unnumbered. induction (gkeys g) as [|k l IH]; simpl; [destruct K|].
+  assert (Hle : length (filter (fun k => negb (mem_node k (dom st'))) l) <= length (filter (fun k => negb (mem_node k (dom st))) l)).
+  { clear - H. induction l as [|k l IH]; simpl; [lia|].
+    destruct (mem_node k (dom st')) eqn:A; destruct (mem_node k (dom st)) eqn:B; simpl; try lia.
+    apply mem_node_In in B. apply mem_node_not_In in A. exfalso. apply A, H. simpl. auto. }
+  destruct K as [-> | K].
+  - assert (A : mem_node n (dom st') = true) by (apply mem_node_In, H; simpl; auto).
+    assert (B : mem_node n (dom st) = false) by (apply mem_node_not_In, N).
+    rewrite A, B. simpl. lia.
+  - specialize (IH K). destruct (mem_node k (dom st')) eqn:A; destruct (mem_node k (dom st)) eqn:B; simpl; try lia.
+    apply mem_node_In in B. apply mem_node_not_In in A. exfalso. apply A, H. simpl. auto.
+Qed.
+
+Lemma visit_fuel g f : forall n st, unnumbered g st < f -> visit f g n st <> Err OutOfFuel.
+Proof.
+  induction f as [|f IH]; intros n st Hlt; [lia|].
+  cbn [visit]. destruct (low_get (low st) n) eqn:Ln; [discriminate|].
+  destruct (succs_of g n) as [ss|] eqn:Es; [|discriminate].
+  set (st1 := mkT _ _ _).
+  apply low_get_None in Ln.
+  assert (D1 : incl (n :: dom st) (dom st1)).
+  { unfold st1, dom. cbn [low]. rewrite low_set_dom_new by exact Ln. intros x [<- | Hx]; apply in_or_app; simpl; auto. }
+  assert (Kn : In n (gkeys g)).
+  { apply succs_of_In in Es. apply in_map_iff. exists (n, ss). auto. }
+  assert (H1 : unnumbered g st1 < f).
+  { pose proof (unnumbered_add g st st1 n Kn Ln D1). lia. }
+  assert (G : forall ss sta, unnumbered g sta < f -> visit_succs (visit f g) n ss sta <> Err OutOfFuel).
+  { induction ss0 as [|s ss0 IHs]; intros sta Ha; simpl; [discriminate|].
+    destruct (visit f g s sta) as [stc|e] eqn:Ec.
+    - destruct (low_get (low stc) n) as [a|] eqn:La; [|discriminate].
+      destruct (low_get (low stc) s) as [b|]; [|discriminate].
+      apply IHs. apply visit_dom_mono in Ec.
+      assert (Dom : dom (mkT (low_set (low stc) n (Nat.min a b)) (stack stc) (comps stc)) = dom stc).
+      { unfold dom. cbn [low]. apply low_set_dom_in. eapply low_get_Some_In; eauto. }
+      pose proof (unnumbered_mono g sta stc Ec). unfold unnumbered in *. rewrite Dom. lia.
+    - intros Q. inversion Q. subst e. eapply IH; eauto. }
+  specialize (G ss st1 H1).
+  destruct (visit_succs (visit f g) n ss st1) as [st2|e]; [|congruence].
+  destruct (low_get (low st2) n); [|discriminate]. destruct (Nat.eqb _ _); discriminate.
+Qed.
+
+Lemma scc_fuel g : scc g <> Err OutOfFuel.
+Proof.
+  unfold scc.
+  assert (G : forall ns st, visit_all (S (length g)) g ns st <> Err OutOfFuel).
+  { induction ns as [|n r IH]; intros st; simpl; [discriminate|].
+    destruct (visit (S (length g)) g n st) as [st1|e] eqn:E; [apply IH|].
+    intros Q. inversion Q. subst e. eapply visit_fuel; [|exact E].
+    unfold unnumbered, gkeys. pose proof (filter_length_le_all (fun k => negb (mem_node k (dom st))) (map fst g)).
+    rewrite map_length in H. lia. }
+  specialize (G (gkeys g) (mkT [] [] [])). destruct (visit_all _ _ _ _); [discriminate | congruence].
+Qed.
